@@ -635,8 +635,13 @@ fn run_case(run: &Run, case: &Case, selftest: &str) -> CaseResult {
     };
 
     let mut context_op_after_perturbation = false;
+    let dbg = std::env::var("VERIF_DEBUG").is_ok();
+    let t_all = std::time::Instant::now();
     for (i, op) in case.ops.iter().enumerate() {
         let at = i + 1;
+        if dbg {
+            eprintln!("[{:?}] op {at}: {op:?}", t_all.elapsed());
+        }
         let perturbed = !st.tl_sets.is_empty() || !st.fails.is_empty();
         match op {
             Op::Sign { src, binding, alg, def } => {
@@ -832,6 +837,9 @@ fn run_case(run: &Run, case: &Case, selftest: &str) -> CaseResult {
     }
     let end = case.ops.len() + 1;
 
+    if dbg {
+        eprintln!("[{:?}] ops done", t_all.elapsed());
+    }
     // ---- (b) probe signing after the sequence and in a fresh process
     let after = do_probe(&probe);
     note_result(run, "probe_after", &after);
@@ -869,6 +877,9 @@ fn run_case(run: &Run, case: &Case, selftest: &str) -> CaseResult {
         }
     }
 
+    if dbg {
+        eprintln!("[{:?}] probe done", t_all.elapsed());
+    }
     // ---- (a)/(c) every kept asset: in-process twice and in fresh child processes
     let dir = work_dir();
     let mut files: Vec<PathBuf> = vec![];
@@ -885,6 +896,9 @@ fn run_case(run: &Run, case: &Case, selftest: &str) -> CaseResult {
         let _ = std::fs::remove_file(f);
     }
     res?;
+    if dbg {
+        eprintln!("[{:?}] final done", t_all.elapsed());
+    }
 
     let nontrivial = context_op_after_perturbation || st.multi_merkle_reread || st.kept.iter().any(|k| k.multi_merkle);
     if nontrivial {
@@ -1086,6 +1100,28 @@ fn main() {
     let args: Vec<String> = std::env::args().collect();
     if args.len() >= 3 && args[1] == "--child" {
         child_main(&args[2]);
+    }
+    if args.len() >= 2 && args[1] == "--bench" {
+        let t = std::time::Instant::now();
+        let (fmt, b) = do_sign(&Src { kind: mp4_idx(), inst: 0, two_mdat: true }, 2, 0, 0, "bench").unwrap().unwrap();
+        eprintln!("source+sign {:?}", t.elapsed());
+        let t = std::time::Instant::now();
+        for _ in 0..20 { let _ = do_sign(&Src { kind: mp4_idx(), inst: 0, two_mdat: true }, 2, 0, 0, "bench"); }
+        eprintln!("20 signs {:?}", t.elapsed());
+        let t = std::time::Instant::now();
+        for _ in 0..20 { let _ = sdk::context_with(&read_settings(0)); }
+        eprintln!("20 contexts {:?}", t.elapsed());
+        let t = std::time::Instant::now();
+        for _ in 0..20 { let _ = read_outcome(&read_settings(0), &fmt, &b); }
+        eprintln!("20 reads {:?}", t.elapsed());
+        let t = std::time::Instant::now();
+        for _ in 0..20 { let _ = sdk::read_with(sdk::context_with(&read_settings(0)), &fmt, &b).map(|r| r.json().len()); }
+        eprintln!("20 raw reads {:?}", t.elapsed());
+        let c = sdk::fixture("C.jpg");
+        let t = std::time::Instant::now();
+        for _ in 0..20 { let _ = read_outcome(&read_settings(0), "image/jpeg", &c); }
+        eprintln!("20 reads C.jpg {:?}", t.elapsed());
+        std::process::exit(0);
     }
     vh::quiet_panics();
     let run = Run::from_args("C38", "exploration");
